@@ -10,3 +10,14 @@ open Just.Props.C07
 #print axioms export_channel_singular
 #print axioms export_channel_variadic
 #print axioms channels_bind_what_C05_binds
+#print axioms shRun_append
+#print axioms step_sq_quote
+#print axioms step_sq_other
+#print axioms step_word_bs
+#print axioms step_esc_quote
+#print axioms step_word_quote
+#print axioms step_out_quote
+#print axioms sq_body
+#print axioms stepC_shape
+#print axioms shRun_shape
+#print axioms finish_shape
